@@ -13,9 +13,36 @@ use cvh::valgen::*;
 use cvh::{jobj, panics, Args, Json, Report, Violation};
 use std::io;
 
+/// getenv interposer (see envpose.rs); not compiled into the coverage-guided targets
+#[cfg(not(fuzzing))]
+pub mod envpose {
+    include!("../envpose.rs");
+}
+
+/// `--hostile-env N`: every environment variable the process asks for (outside the runtime's own) is reported as set.
+fn hostile_env_on(args: &Args) {
+    #[cfg(not(fuzzing))]
+    envpose::HOSTILE_MODE.store(args.u64("hostile-env", 0) as u32, std::sync::atomic::Ordering::Relaxed);
+    let _ = args;
+}
+
+fn hostile_env_report(rep: &mut Report, args: &Args) {
+    #[cfg(not(fuzzing))]
+    if args.u64("hostile-env", 0) != 0 {
+        rep.obs("cases_run_in_a_hostile_environment", rep.evaluations);
+        let q = envpose::queried();
+        rep.obs("environment_variables_the_process_asked_for", q.len() as u64);
+        if !q.is_empty() {
+            rep.note(format!("environment variables asked for during the run (answered with a hostile value): {:?}", q));
+        }
+    }
+    let _ = (rep, args);
+}
+
 fn main() {
     let args = Args::from_env();
     panics::install_hook();
+    hostile_env_on(&args);
     let mode = args.str("mode", "c01");
     let code = match mode.as_str() {
         "c01" => run_cases(&args, "C01", case_c01),
@@ -27,7 +54,8 @@ fn main() {
             let prop = args.str("property", "C01");
             let mut rep = Report::new("fmt_driver", &prop);
             fuzz_case(&mut rep, &args, &cvh::fuzz::unhex(&args.str("hex", "")));
-            rep.finish(args.get("out"))
+            hostile_env_report(&mut rep, &args);
+    rep.finish(args.get("out"))
         }
         m => {
             eprintln!("unknown mode {}", m);
@@ -100,6 +128,7 @@ fn run_cases(args: &Args, prop: &str, f: fn(&mut Ctx, &mut Rng)) -> i32 {
             }
         }
     }
+    hostile_env_report(&mut rep, args);
     rep.finish(args.get("out"))
 }
 
@@ -495,6 +524,7 @@ fn sweep_c02(args: &Args) -> i32 {
     for s in d {
         rep.distinct(&s);
     }
+    hostile_env_report(&mut rep, args);
     rep.finish(args.get("out"))
 }
 
